@@ -262,6 +262,34 @@ func init() {
 	reg("bytes.Index", func(m *Machine, fn *ssa.Function, args []Value) Value {
 		return indexStr(m, m.bytesToStr(args[0].(Slice)), m.bytesToStr(args[1].(Slice)))
 	})
+	indexAny := func(m *Machine, s Str, chars Str) Value {
+		if !chars.Concrete() {
+			m.unsupported("IndexAny with symbolic character set")
+		}
+		for i := 0; i < len(chars.S); i++ {
+			if chars.S[i] >= 0x80 {
+				m.unsupported("IndexAny with non-ASCII character set")
+			}
+		}
+		for i := 0; i < s.Len(); i++ {
+			c := m.strAt(s, i)
+			hit := m.C.False
+			for j := 0; j < len(chars.S); j++ {
+				hit = m.C.Or(hit, m.C.Eq(c, m.C.BV(8, uint64(chars.S[j]))))
+			}
+			if m.Decide(hit) {
+				return m.i64(i)
+			}
+		}
+		return m.i64(-1)
+	}
+	reg("bytes.IndexAny", func(m *Machine, fn *ssa.Function, args []Value) Value {
+		sl, _ := args[0].(Slice)
+		return indexAny(m, m.bytesToStr(sl), args[1].(Str))
+	})
+	reg("strings.IndexAny", func(m *Machine, fn *ssa.Function, args []Value) Value {
+		return indexAny(m, args[0].(Str), args[1].(Str))
+	})
 	reg("internal/bytealg.Equal", func(m *Machine, fn *ssa.Function, args []Value) Value {
 		return m.strEq(m.bytesToStr(args[0].(Slice)), m.bytesToStr(args[1].(Slice)))
 	})
